@@ -183,6 +183,65 @@ func (t *Tree) AddLink(rel, target string) *Node {
 	return n
 }
 
+// AddLinkIn adds a symbolic link called name to directory dir.
+func (t *Tree) AddLinkIn(dir *Node, name, target string) *Node {
+	if dir.Kind != Dir || dir.Kids[name] != nil {
+		panic("fsmodel: cannot add link " + name + " to " + dir.Path())
+	}
+	n := &Node{Kind: Link, Name: name, Parent: dir, Target: target}
+	dir.Kids[name] = n
+	return n
+}
+
+// Rename gives n a new name within its directory (the model's side of a
+// rename(2) inside one directory).  The node keeps its identity, so everything
+// below it moves with it.
+func (t *Tree) Rename(n *Node, newName string) {
+	p := n.Parent
+	if p == n || p.Kids[n.Name] != n || p.Kids[newName] != nil {
+		panic("fsmodel: cannot rename " + n.Path() + " to " + newName)
+	}
+	delete(p.Kids, n.Name)
+	n.Name = newName
+	p.Kids[newName] = n
+}
+
+// Dirs lists the real directories of the sandbox (the sandbox directory
+// itself first, then sorted by path).
+func (t *Tree) Dirs() []*Node {
+	var out []*Node
+	var rec func(n *Node)
+	rec = func(n *Node) {
+		if n.Kind != Dir {
+			return
+		}
+		out = append(out, n)
+		for _, k := range n.SortedKids() {
+			rec(n.Kids[k])
+		}
+	}
+	rec(t.Base)
+	return out
+}
+
+// LinkNodes lists the symbolic links of the sandbox (sorted by path).
+func (t *Tree) LinkNodes() []*Node {
+	var out []*Node
+	var rec func(n *Node)
+	rec = func(n *Node) {
+		switch n.Kind {
+		case Dir:
+			for _, k := range n.SortedKids() {
+				rec(n.Kids[k])
+			}
+		case Link:
+			out = append(out, n)
+		}
+	}
+	rec(t.Base)
+	return out
+}
+
 // Lookup returns the node at a sandbox-relative path of plain names without
 // following links (nil if absent).
 func (t *Tree) Lookup(rel string) *Node {
